@@ -9,7 +9,7 @@ from common import Case
 TITLE = 'PBN export is read back by the PBN parser, one game per board'
 LEAN_TARGETS = ['BridgeVerif.Props.C18']
 REQUIRED = ['lines_at_most_255', 'written_lines_at_most_255', 'fifteen_tags_in_order', 'passed_out_tags', 'export_round_trip',
-            'export_as_settings', 'consecutive_results_are_separate_games']
+            'export_as_settings', 'consecutive_results_are_separate_games', 'old_writer_merged_games']
 KEEP_FIRST = 1
 SHARDS = {'quick': 2, 'thorough': 16}
 RULE = ('sequences of 1-6 board results written by the real PbnWriter (free-text values over printable ASCII + non-ASCII letters '
